@@ -81,6 +81,8 @@ pub struct ConcParams {
     pub extra_sweeps: bool,
     /// Pressure::Fits: the limit is the demanded weight plus 0..=fits_slack
     pub fits_slack: i64,
+    /// one key weighs 55-90 % of the limit (Tight / Over): admitting it needs several victims
+    pub heavy_key: bool,
 }
 
 impl ConcParams {
@@ -106,6 +108,7 @@ impl ConcParams {
             bare_ttl_pct: 0,
             extra_sweeps: false,
             fits_slack: 30,
+            heavy_key: false,
         }
     }
 }
@@ -146,6 +149,10 @@ pub fn gen_cfg(rng: &mut Rng, keys: u32, pressure: Pressure, ttl_possible: bool,
         // one key heavier than the whole cache
         let k = rng.usize_below(ws.len());
         ws[k] = weight + rng.range_i(1, 10);
+    }
+    if p.heavy_key && pressure != Pressure::Fits {
+        let h = rng.usize_below(ws.len());
+        ws[h] = (weight * rng.range_i(55, 90) / 100).max(1);
     }
     Cfg {
         weight,
